@@ -31,10 +31,40 @@ import (
 	"verif/harness/internal/tr"
 )
 
-// item: ordered by key only; the version tells which stored item is in the tree.
+// Items are ordered by key only; the version tells which stored item is in the tree.  The tree
+// takes any btree.Item, so the dynamic KIND of the items is a dimension of a trace: a struct value
+// (== compares contents), a pointer (== compares identity; lookup keys are fresh pointers) and a
+// slice type (not comparable at all: == on two of them panics).  One tree holds one kind.
+type kv interface {
+	btree.Item
+	key() int
+	ver() int
+}
 type item struct{ k, v int }
+type pitem struct{ k, v int }
+type litem []int
 
-func (a item) Less(b btree.Item) bool { return a.k < b.(item).k }
+func (a item) Less(b btree.Item) bool   { return a.k < b.(kv).key() }
+func (a item) key() int                 { return a.k }
+func (a item) ver() int                 { return a.v }
+func (a *pitem) Less(b btree.Item) bool { return a.k < b.(kv).key() }
+func (a *pitem) key() int               { return a.k }
+func (a *pitem) ver() int               { return a.v }
+func (a litem) Less(b btree.Item) bool  { return a[0] < b.(kv).key() }
+func (a litem) key() int                { return a[0] }
+func (a litem) ver() int                { return a[1] }
+
+var kindNames = []string{"struct", "pointer", "slice"}
+
+func mkItem(kind, k, v int) btree.Item {
+	switch kind {
+	case 1:
+		return &pitem{k, v}
+	case 2:
+		return litem{k, v}
+	}
+	return item{k, v}
+}
 
 type act struct {
 	Op  string `json:"op"`
@@ -50,6 +80,9 @@ type act struct {
 	Fr  []int  `json:"fr"`
 	N   int    `json:"n"`
 	Fl  bool   `json:"fl"`
+	Pn  bool   `json:"pn"` // p / q passed as nil (no bound on that side)
+	Qn  bool   `json:"qn"`
+	Max bool   `json:"max"`
 	Api string `json:"api"`
 	Deg int    `json:"deg"`
 }
@@ -73,14 +106,18 @@ func (a act) rec() tr.E {
 		if fr == nil {
 			fr = []int{}
 		}
-		return tr.E{"op": a.Op, "h": a.H, "fn": a.Fn, "p": a.P, "q": a.Q, "fm": a.Fm, "fr": fr, "n": a.N}
+		return tr.E{"op": a.Op, "h": a.H, "fn": a.Fn, "p": a.P, "q": a.Q, "pn": a.Pn, "qn": a.Qn, "fm": a.Fm, "fr": fr, "n": a.N}
+	case "fill":
+		return tr.E{"op": a.Op, "h": a.H, "k": a.K, "n": a.N, "v": a.V}
+	case "drain":
+		return tr.E{"op": a.Op, "h": a.H, "n": a.N, "max": a.Max}
 	}
 	return tr.E{"op": a.Op}
 }
 
 func isWrite(op string) bool {
 	switch op {
-	case "ins", "roi", "upd", "upsert", "del", "idel", "delmin", "delmax", "clear", "clone":
+	case "ins", "roi", "upd", "upsert", "del", "idel", "delmin", "delmax", "clear", "clone", "fill", "drain":
 		return true
 	}
 	return false
@@ -101,17 +138,19 @@ type sut struct {
 	wrap *tree.BTree
 	hs   []*btree.BTree   // handle h is hs[h-1]; for the wrapper hs[0] is the wrapped tree (read only)
 	hook func(btree.Item) // called by the scan callbacks for every item visited (compound use)
+	kind int              // dynamic kind of the items (see kv)
 }
 
 // sharedFree: one free list used by many trees of this process, one after the other and - in the
 // parallel-clone phase - at the same time ("Two Btrees using the same freelist are safe for
 // concurrent write access").
 var sharedFree = btree.NewFreeList(4)
+var handedFree = btree.NewFreeList(32)
 
 // newSut: fl selects the node free list of an inner tree: < 0 btree.New (default size), otherwise
 // NewWithFreeList with a list of that size (0 = nothing is ever recycled), 1000 = the shared list.
-func newSut(api string, deg int, fl int) *sut {
-	s := &sut{api: api, deg: deg}
+func newSut(api string, deg int, fl int, kind int) *sut {
+	s := &sut{api: api, deg: deg, kind: kind}
 	switch {
 	case api == "wrap":
 		s.wrap = tree.NewBTree()
@@ -120,6 +159,10 @@ func newSut(api string, deg int, fl int) *sut {
 		s.hs = []*btree.BTree{btree.New(deg)}
 	case fl == 1000:
 		s.hs = []*btree.BTree{btree.NewWithFreeList(deg, sharedFree)}
+	case fl == 2000: // a list handed from one configuration to the next (edgeRuns)
+		s.hs = []*btree.BTree{btree.NewWithFreeList(deg, handedFree)}
+	case fl == 3000: // the zero value of the type: no degree, no context; reads and deletes only
+		s.hs = []*btree.BTree{new(btree.BTree)}
 	default:
 		s.hs = []*btree.BTree{btree.NewWithFreeList(deg, btree.NewFreeList(fl))}
 	}
@@ -140,14 +183,14 @@ func (s *sut) pscan(a act) (r interface{}) {
 		}
 	}()
 	if s.api == "wrap" {
-		wrapScan(s.wrap, a, nil)
+		wrapScan(s.wrap, a, s.kind, nil)
 	} else {
-		innerScan(s.hs[a.H-1], a, nil)
+		innerScan(s.hs[a.H-1], a, s.kind, nil)
 	}
 	return 0
 }
 
-func pair(x btree.Item) []int { it := x.(item); return []int{it.k, it.v} }
+func pair(x btree.Item) []int { it := x.(kv); return []int{it.key(), it.ver()} }
 
 func opt(x btree.Item) tr.E {
 	if x == nil {
@@ -169,7 +212,18 @@ func passes(k, fm int, fr []int) bool {
 // innerScan calls one of the ten range scans with an iterator that collects what passes the
 // filter and asks to stop once n items are collected.  It keeps appending if it is called
 // again after having returned false, so a scan that does not stop is visible in the reply.
-func innerScan(t *btree.BTree, a act, hook func(btree.Item)) [][]int {
+// pivots of a scan: nil when the action says so
+func pivotsOf(a act, kind int) (p, q btree.Item) {
+	if !a.Pn {
+		p = mkItem(kind, a.P, 0)
+	}
+	if !a.Qn {
+		q = mkItem(kind, a.Q, 0)
+	}
+	return p, q
+}
+
+func innerScan(t *btree.BTree, a act, kind int, hook func(btree.Item)) [][]int {
 	out := make([][]int, 0, 8)
 	calls := 0
 	it := func(x btree.Item) bool {
@@ -183,12 +237,12 @@ func innerScan(t *btree.BTree, a act, hook func(btree.Item)) [][]int {
 		if hook != nil {
 			hook(x)
 		}
-		if a.N > 0 && passes(x.(item).k, a.Fm, a.Fr) {
+		if a.N > 0 && passes(x.(kv).key(), a.Fm, a.Fr) {
 			out = append(out, pair(x))
 		}
 		return len(out) < a.N && calls < runaway
 	}
-	p, q := item{a.P, 0}, item{a.Q, 0}
+	p, q := pivotsOf(a, kind)
 	switch a.Fn {
 	case "AscendRange":
 		t.AscendRange(p, q, it)
@@ -228,20 +282,37 @@ func resolve(rep interface{}) interface{} {
 	}
 	out := make([][]int, 0, len(h.ns))
 	for _, n := range h.ns {
-		it, ok := n.(item)
+		it, ok := n.(kv)
 		if !ok {
 			out = append(out, []int{-999999, -999999}) // a foreign / nil node in a result: visible to the spec
 			continue
 		}
-		out = append(out, []int{it.k, it.v})
+		out = append(out, []int{it.key(), it.ver()})
 	}
 	return out
+}
+
+// scribble: the caller owns the slice a scan returned.  Once it has been rendered the harness
+// overwrites every element and appends into it up to its capacity, like a caller that recycles
+// the buffer; the tree and every later result must be unaffected.
+func scribble(rep interface{}) {
+	h, ok := rep.(held)
+	if !ok || h.ns == nil {
+		return
+	}
+	for i := range h.ns {
+		h.ns[i] = item{-777777, -777777}
+	}
+	b := h.ns[:0]
+	for len(b) < cap(h.ns) && len(b) < 4096 {
+		b = append(b, item{-888888, -888888})
+	}
 }
 
 // sentinel: the harness's own panic thrown from inside a callback (op "pscan")
 type sentinel struct{}
 
-func wrapScan(b *tree.BTree, a act, hook func(btree.Item)) interface{} {
+func wrapScan(b *tree.BTree, a act, kind int, hook func(btree.Item)) interface{} {
 	calls := 0
 	f := func(n tree.Node) bool {
 		calls++
@@ -251,14 +322,14 @@ func wrapScan(b *tree.BTree, a act, hook func(btree.Item)) interface{} {
 		if hook != nil {
 			hook(n)
 		}
-		return passes(n.(item).k, a.Fm, a.Fr)
+		return passes(n.(kv).key(), a.Fm, a.Fr)
 	}
 	lim := a.N
 	if a.Op == "pscan" {
 		lim = 1000
 	}
 	var ns []tree.Node
-	p := item{a.P, 0}
+	p, _ := pivotsOf(a, kind)
 	switch a.Fn {
 	case "AscendGte":
 		ns = b.AscendGte(p, f, lim)
@@ -275,22 +346,23 @@ func wrapScan(b *tree.BTree, a act, hook func(btree.Item)) interface{} {
 }
 
 func (s *sut) do(a act) interface{} {
+	mk := func(k, v int) btree.Item { return mkItem(s.kind, k, v) }
 	if s.api == "wrap" {
 		b := s.wrap
 		switch a.Op {
 		case "ins":
-			b.Insert(item{a.K, a.V})
+			b.Insert(mk(a.K, a.V))
 			return 0
 		case "upd":
-			return b.Update(item{a.O, 0}, item{a.K, a.V})
+			return b.Update(mk(a.O, 0), mk(a.K, a.V))
 		case "upsert":
-			return b.UpdateOrInsert(item{a.O, 0}, item{a.K, a.V})
+			return b.UpdateOrInsert(mk(a.O, 0), mk(a.K, a.V))
 		case "del":
-			return b.Delete(item{a.K, 0})
+			return b.Delete(mk(a.K, 0))
 		case "get":
-			return opt(b.Get(item{a.K, 0}))
+			return opt(b.Get(mk(a.K, 0)))
 		case "scan":
-			return wrapScan(b, a, s.hook)
+			return wrapScan(b, a, s.kind, s.hook)
 		case "pscan":
 			return s.pscan(a)
 		case "nop":
@@ -307,23 +379,45 @@ func (s *sut) do(a act) interface{} {
 	t := s.hs[a.H-1]
 	switch a.Op {
 	case "roi":
-		return opt(t.ReplaceOrInsert(item{a.K, a.V}))
+		return opt(t.ReplaceOrInsert(mk(a.K, a.V)))
 	case "idel":
-		return opt(t.Delete(item{a.K, 0}))
+		return opt(t.Delete(mk(a.K, 0)))
 	case "delmin":
 		return opt(t.DeleteMin())
 	case "delmax":
 		return opt(t.DeleteMax())
 	case "get":
-		return opt(t.Get(item{a.K, 0}))
+		return opt(t.Get(mk(a.K, 0)))
 	case "has":
-		return t.Has(item{a.K, 0})
+		return t.Has(mk(a.K, 0))
 	case "len":
 		return t.Len()
 	case "min":
 		return opt(t.Min())
 	case "max":
 		return opt(t.Max())
+	case "fill": // run-length encoded: ReplaceOrInsert of a.N ascending keys
+		rep := 0
+		for i := 0; i < a.N; i++ {
+			if t.ReplaceOrInsert(mk(a.K+i, a.V+i)) != nil {
+				rep++
+			}
+		}
+		return rep
+	case "drain": // run-length encoded: a.N times DeleteMin / DeleteMax
+		got := 0
+		for i := 0; i < a.N; i++ {
+			var x btree.Item
+			if a.Max {
+				x = t.DeleteMax()
+			} else {
+				x = t.DeleteMin()
+			}
+			if x != nil {
+				got++
+			}
+		}
+		return got
 	case "clear":
 		t.Clear(a.Fl)
 		return 0
@@ -331,7 +425,7 @@ func (s *sut) do(a act) interface{} {
 		s.hs = append(s.hs, t.Clone())
 		return 0
 	case "scan":
-		return innerScan(t, a, s.hook)
+		return innerScan(t, a, s.kind, s.hook)
 	case "pscan":
 		return s.pscan(a)
 	}
@@ -401,7 +495,7 @@ func sig(n *btree.VerifNode, sb *strings.Builder) {
 	for i, c := range n.Children {
 		sig(c, sb)
 		if i < len(n.Items) {
-			fmt.Fprintf(sb, "|%d|", n.Items[i].(item).k)
+			fmt.Fprintf(sb, "|%d|", n.Items[i].(kv).key())
 		}
 	}
 	sb.WriteByte(')')
@@ -433,7 +527,7 @@ func shape(t *btree.BTree) (string, int, []int) {
 		}
 		if len(n.Children) > 0 {
 			for _, x := range n.Items {
-				seps = append(seps, x.(item).k)
+				seps = append(seps, x.(kv).key())
 			}
 		}
 		for _, c := range n.Children {
@@ -467,9 +561,9 @@ func (s *sut) obs(full bool, hs []int, dumps []int) tr.E {
 // ------------------------------------------------------------------ statistics (evidence only)
 
 type stats struct {
-	Events, Writes, Scans, Sweeps, Changes, MaxHeight, MaxKeys, Clones, Panics, RaceRounds, RaceKept, Compound, Cold, Stuck, Retained, CloneShapes, Drains, Duels, ReplaceSweeps int
-	Heights                                                                                                                                                                      map[int]int
-	Degrees                                                                                                                                                                      map[int]int
+	Events, Writes, Scans, Sweeps, Changes, MaxHeight, MaxKeys, Clones, Panics, RaceRounds, RaceKept, Compound, Cold, Stuck, Retained, CloneShapes, Drains, Duels, ReplaceSweeps, Scribbles, Gates int
+	Heights                                                                                                                                                                                        map[int]int
+	Degrees                                                                                                                                                                                        map[int]int
 }
 
 var st = stats{Heights: map[int]int{}, Degrees: map[int]int{}}
@@ -522,6 +616,16 @@ func (r *runner) shadow(a act) {
 		return best, ok
 	}
 	switch a.Op {
+	case "fill":
+		for i := 0; i < a.N; i++ {
+			m[a.K+i] = true
+		}
+	case "drain":
+		for i := 0; i < a.N; i++ {
+			if k, ok := ext(a.Max); ok {
+				delete(m, k)
+			}
+		}
 	case "ins", "roi":
 		m[a.K] = true
 	case "upd":
@@ -607,6 +711,10 @@ func (r *runner) emitCall(a act, withObs bool) {
 		r.ver++
 		a.V = r.ver
 	}
+	if a.Op == "fill" {
+		a.V = r.ver + 1
+		r.ver += a.N
+	}
 	if a.Op == "clone" {
 		a.H2 = len(r.s.hs) + 1
 		st.Clones++
@@ -626,6 +734,19 @@ func (r *runner) emitCall(a act, withObs bool) {
 	}
 	if !withObs {
 		r.out(tr.E{"ev": "callr", "a": a.rec()}, rep)
+		if _, isHeld := rep.(held); isHeld && !r.retain {
+			scribble(rep) // rendered above: now the buffer is the caller's to reuse
+			st.Scribbles++
+			if r.rng.Intn(3) == 0 { // the same call again must give the same answer
+				rep2, p2 := r.s.safeDo(a)
+				if p2 {
+					r.die("panic", a, rep2.(string))
+					return
+				}
+				r.out(tr.E{"ev": "callr", "a": a.rec()}, rep2)
+				scribble(rep2)
+			}
+		}
 		return
 	}
 	r.nw++
@@ -755,13 +876,37 @@ func (r *runner) doSweep(h int) {
 		r.randFilterN(&a)
 		r.emitCall(a, false)
 	}
+	nilscan := func(fn string, pn, qn bool, q int) { // a nil pivot = no bound on that side
+		a := act{Op: "scan", H: h, Fn: fn, Pn: pn, Qn: qn, Q: q}
+		r.randFilterN(&a)
+		r.emitCall(a, false)
+	}
 	if r.s.api == "wrap" {
 		for _, fn := range wrapScans {
 			for _, p := range ps {
 				scan(fn, p, 0)
 			}
+			if r.rng.Intn(3) == 0 {
+				nilscan(fn, true, false, 0)
+			}
 		}
 		return
+	}
+	if r.rng.Intn(3) == 0 { // the nil-pivot block in one sweep out of three
+		for _, fn := range innerScans {
+			if !noPivot(fn) {
+				nilscan(fn, true, false, 0)
+			}
+		}
+		mid := ps[len(ps)/2]
+		for _, fn := range []string{"AscendRange", "DescendRange"} {
+			nilscan(fn, true, false, mid)
+			nilscan(fn, true, true, 0)
+			a := act{Op: "scan", H: h, Fn: fn, P: mid, Qn: true}
+			r.randFilterN(&a)
+			r.emitCall(a, false)
+			scan(fn, mid, mid) // the same pivot twice: the empty range
+		}
 	}
 	for _, fn := range []string{"AscendGreater", "DescendLess", "AscendGreaterOrEqual", "DescendLessOrEqual"} {
 		for _, p := range ps {
@@ -806,16 +951,16 @@ func (r *runner) finish() {
 var curRunner *runner
 
 type cfg struct {
-	api, src                      string
-	deg, fl, lo, hi, sweep, dumpK int
-	retain                        bool
+	api, src                            string
+	deg, fl, lo, hi, sweep, dumpK, kind int
+	retain                              bool
 }
 
 func newRunner(w *tr.W, rng *rand.Rand, c cfg) *runner {
 	w.Emit(tr.E{"ev": "reset", "api": c.api, "deg": c.deg, "threads": 1, "src": c.src, "lo": c.lo, "hi": c.hi,
-		"freelist": c.fl, "retain": c.retain})
+		"freelist": c.fl, "retain": c.retain, "kind": kindNames[c.kind]})
 	st.Degrees[c.deg]++
-	r := &runner{w: w, s: newSut(c.api, c.deg, c.fl), rng: rng, lo: c.lo, hi: c.hi, sweep: c.sweep, dumpK: c.dumpK,
+	r := &runner{w: w, s: newSut(c.api, c.deg, c.fl, c.kind), rng: rng, lo: c.lo, hi: c.hi, sweep: c.sweep, dumpK: c.dumpK,
 		last: map[int]string{}, retain: c.retain}
 	curRunner = r
 	return r
@@ -871,10 +1016,11 @@ func (r *runner) compound(a act, mode int, other int) {
 	n := 0
 	r.s.hook = func(x btree.Item) {
 		n++
-		it, ok := x.(item)
+		xi, ok := x.(kv)
 		if n > 3 || !ok || r.dead {
 			return
 		}
+		it := item{xi.key(), xi.ver()}
 		hk := r.s.hook
 		r.s.hook = nil
 		defer func() { r.s.hook = hk }()
@@ -947,7 +1093,7 @@ func randHistory(w *tr.W, rng *rand.Rand, idx, maxops, sweep int) {
 	if idx%11 == 10 { // a large one: keys 0..200, observations every 6th write, also wide nodes
 		nkeys, dumpK = 201, 6
 		if api == "inner" {
-			deg = []int{2, 3, 8, 16, 32, 64}[rng.Intn(6)]
+			deg = []int{2, 3, 8, 9, 15, 16, 17, 32, 33, 64}[rng.Intn(10)]
 		}
 	}
 	lo := rng.Intn(3) // domain lo..lo+nkeys-1, pivots from lo-1 (may be -1: below every key)
@@ -956,7 +1102,7 @@ func randHistory(w *tr.W, rng *rand.Rand, idx, maxops, sweep int) {
 	if retain {
 		st.Retained++
 	}
-	r := newRunner(w, rng, cfg{api: api, src: "rand", deg: deg, fl: fl, lo: lo, hi: hi, sweep: sweep, dumpK: dumpK, retain: retain})
+	r := newRunner(w, rng, cfg{api: api, src: "rand", deg: deg, fl: fl, lo: lo, hi: hi, sweep: sweep, dumpK: dumpK, retain: retain, kind: rng.Intn(3)})
 	if idx%4 == 1 {
 		st.Cold++
 		r.coldPrologue()
@@ -1109,6 +1255,7 @@ func randHistory(w *tr.W, rng *rand.Rand, idx, maxops, sweep int) {
 			default:
 				a := act{Op: "scan", H: 1, Fn: wrapScans[rng.Intn(4)], P: lo - 1 + rng.Intn(nkeys+2)}
 				r.randFilterN(&a)
+				a.Pn = rng.Intn(10) == 0
 				switch rng.Intn(5) {
 				case 0:
 					r.compound(a, 0, 0)
@@ -1159,6 +1306,10 @@ func randHistory(w *tr.W, rng *rand.Rand, idx, maxops, sweep int) {
 			}
 			if twoPivot(fn) {
 				a.Q = lo - 1 + rng.Intn(nkeys+2)
+				a.Qn = rng.Intn(10) == 0
+			}
+			if !noPivot(fn) {
+				a.Pn = rng.Intn(10) == 0
 			}
 			r.randFilterN(&a)
 			switch rng.Intn(6) {
@@ -1205,7 +1356,7 @@ func cloneShapes(w *tr.W, rng *rand.Rand, only int) int {
 					if only > 0 && n%only != 0 {
 						continue
 					}
-					r := newRunner(w, rng, cfg{api: "inner", src: "cloneshape:" + class, deg: deg,
+					r := newRunner(w, rng, cfg{api: "inner", src: "cloneshape:" + class, deg: deg, kind: n % 3,
 						fl: []int{-1, 0, 1000}[(ci+first+kind)%3], lo: 1, hi: 2*deg + 3, dumpK: 1, retain: n%2 == 0})
 					full := 2*deg - 1
 					ins := func(lo, hi int) {
@@ -1293,6 +1444,142 @@ func cloneShapes(w *tr.W, rng *rand.Rand, only int) int {
 	return n
 }
 
+// ------------------------------------------------------------------ sizes, long runs, reuse, zero value
+
+// edgeRuns: (a) the zero value of btree.BTree: everything that does not need a degree or a context;
+// (b) node sizes around the constants of the code (the 16-entry clearing blocks of truncate, the
+// 32-entry default free list): degrees 8, 9, 15, 16, 17, 32, 33 filled until nodes split, drained,
+// cleared into free lists of 31 / 32 / 33 / 0 entries and refilled; a tree of ~100 nodes cleared
+// into its free list and rebuilt; (c) one free list handed through trees of degree 2 -> 8 -> 2;
+// (d) runs of 255 / 256 / 257 (and 65535 / 65536 / 65537) items around counter widths, logged as
+// run-length encoded fill / drain events.
+func edgeRuns(w *tr.W, rng *rand.Rand, long bool) {
+	reads := func(r *runner, lo, hi int) {
+		for _, op := range []string{"len", "min", "max"} {
+			r.step(act{Op: op, H: 1})
+		}
+		for _, k := range []int{lo - 1, lo, lo + 1, (lo + hi) / 2, hi - 1, hi, hi + 1} {
+			r.step(act{Op: "get", H: 1, K: k})
+		}
+		for _, fn := range []string{"AscendGreater", "DescendLess", "AscendGreaterOrEqual", "DescendLessOrEqual"} {
+			for _, p := range []int{lo - 1, lo, (lo + hi) / 2, hi, hi + 1} {
+				r.step(act{Op: "scan", H: 1, Fn: fn, P: p, Fm: 1, Fr: []int{0}, N: 3})
+			}
+		}
+		r.step(act{Op: "scan", H: 1, Fn: "AscendRange", P: hi - 2, Qn: true, Fm: 1, Fr: []int{0}, N: 1000})
+		r.step(act{Op: "scan", H: 1, Fn: "DescendRange", P: lo + 2, Qn: true, Fm: 1, Fr: []int{0}, N: 1000})
+	}
+	end := func(r *runner) {
+		if !r.dead {
+			r.emitCall(act{Op: "nop"}, true)
+		}
+		r.flush()
+		curRunner = nil
+	}
+	// (a) zero value: replies only (its dump has no degree)
+	{
+		r := newRunner(w, rng, cfg{api: "inner", src: "zero-value", deg: 2, fl: 3000, lo: 1, hi: 3, dumpK: 1, kind: rng.Intn(3)})
+		for rep := 0; rep < 2; rep++ {
+			for _, op := range []string{"len", "min", "max", "get", "has", "delmin", "delmax", "idel"} {
+				r.emitCall(act{Op: op, H: 1, K: 2}, false)
+			}
+			for _, fn := range innerScans {
+				r.emitCall(act{Op: "scan", H: 1, Fn: fn, P: 1, Q: 3, Pn: rep == 1, Fm: 1, Fr: []int{0}, N: 1000}, false)
+			}
+			r.emitCall(act{Op: "pscan", H: 1, Fn: "Descend", Fm: 1, Fr: []int{0}, N: 0}, false)
+			r.emitCall(act{Op: "clear", H: 1, Fl: rep == 1}, false)
+		}
+		r.flush()
+		curRunner = nil
+	}
+	// (b) block sizes
+	for i, deg := range []int{8, 9, 15, 16, 17, 32, 33} {
+		fl := []int{31, 32, 33, 0, -1, 1000, 32}[i]
+		n := 5 * deg
+		r := newRunner(w, rng, cfg{api: "inner", src: "blocks", deg: deg, fl: fl, lo: 1, hi: n, dumpK: 1, kind: i % 3})
+		r.step(act{Op: "fill", H: 1, K: 1, N: 2*deg - 1}) // the root exactly full
+		r.step(act{Op: "roi", H: 1, K: 2 * deg})          // ... and split
+		r.step(act{Op: "fill", H: 1, K: 2*deg + 1, N: n - 2*deg})
+		reads(r, 1, n)
+		r.step(act{Op: "drain", H: 1, N: n / 2, Max: i%2 == 0})
+		r.step(act{Op: "clone", H: 1})
+		r.step(act{Op: "fill", H: 1, K: 1, N: n})
+		r.step(act{Op: "clear", H: 1, Fl: true})
+		r.step(act{Op: "fill", H: 1, K: 3, N: n})
+		r.step(act{Op: "drain", H: 2, N: n, Max: false})
+		r.step(act{Op: "clear", H: 2, Fl: true})
+		r.step(act{Op: "fill", H: 2, K: 1, N: 2 * deg})
+		end(r)
+	}
+	for i, fl := range []int{31, 32, 33, 1000} { // ~100 nodes into a free list of about 32, and back
+		r := newRunner(w, rng, cfg{api: "inner", src: "bigclear", deg: 2, fl: fl, lo: 1, hi: 150, dumpK: 1, kind: i % 3})
+		r.step(act{Op: "fill", H: 1, K: 1, N: 150})
+		r.step(act{Op: "clear", H: 1, Fl: true})
+		r.step(act{Op: "fill", H: 1, K: 1, N: 150})
+		r.step(act{Op: "drain", H: 1, N: 140, Max: i%2 == 1})
+		r.step(act{Op: "fill", H: 1, K: 50, N: 60})
+		reads(r, 1, 150)
+		end(r)
+	}
+	// (c) one free list through consecutive configurations
+	for round := 0; round < 2; round++ {
+		for _, deg := range []int{2, 8, 2, 3} {
+			r := newRunner(w, rng, cfg{api: "inner", src: "handed-freelist", deg: deg, fl: 2000, lo: 1, hi: 60, dumpK: 1, kind: round})
+			r.step(act{Op: "fill", H: 1, K: 1, N: 60})
+			r.step(act{Op: "drain", H: 1, N: 25, Max: deg == 8})
+			r.step(act{Op: "fill", H: 1, K: 10, N: 30})
+			reads(r, 1, 60)
+			r.step(act{Op: "clear", H: 1, Fl: true}) // its nodes go to the list the next tree allocates from
+			end(r)
+		}
+	}
+	// (d) long runs
+	runs := []int{255, 256, 257}
+	for i, n := range runs {
+		r := newRunner(w, rng, cfg{api: "inner", src: "run", deg: []int{2, 3, 16}[i], fl: -1, lo: 1, hi: n, dumpK: 1, kind: i})
+		r.step(act{Op: "fill", H: 1, K: 1, N: n - 1})
+		r.step(act{Op: "len", H: 1})
+		r.step(act{Op: "roi", H: 1, K: n})
+		r.step(act{Op: "len", H: 1})
+		r.step(act{Op: "clone", H: 1})
+		r.step(act{Op: "roi", H: 2, K: n + 1})
+		r.step(act{Op: "len", H: 2})
+		r.step(act{Op: "fill", H: 1, K: 1, N: n}) // n replacements
+		reads(r, 1, n)
+		r.step(act{Op: "drain", H: 1, N: n - 1, Max: i == 1})
+		r.step(act{Op: "len", H: 1})
+		r.step(act{Op: "drain", H: 2, N: n + 2, Max: false})
+		end(r)
+	}
+	if long {
+		for i, n := range []int{65535, 65536, 65537} {
+			// replies only while the tree is large (an observation would be 65 000 pairs per event)
+			r := newRunner(w, rng, cfg{api: "inner", src: "longrun", deg: []int{2, 32, 4}[i], fl: -1, lo: 1, hi: n, dumpK: 1, kind: i})
+			q := func(a act) { r.emitCall(a, false); r.shadow(r.done) }
+			q(act{Op: "fill", H: 1, K: 1, N: n - 1})
+			r.step(act{Op: "len", H: 1})
+			q(act{Op: "roi", H: 1, K: n})
+			r.step(act{Op: "len", H: 1})
+			q(act{Op: "roi", H: 1, K: n + 1})
+			r.step(act{Op: "len", H: 1})
+			for _, k := range []int{0, 1, 255, 256, 257, 32767, 32768, 65535, 65536, 65537, n, n + 1, n + 2} {
+				r.step(act{Op: "get", H: 1, K: k})
+			}
+			r.step(act{Op: "scan", H: 1, Fn: "AscendGreater", P: n - 3, Fm: 1, Fr: []int{0}, N: 1000})
+			r.step(act{Op: "scan", H: 1, Fn: "DescendLess", P: 65537, Fm: 1, Fr: []int{0}, N: 3})
+			r.step(act{Op: "min", H: 1})
+			r.step(act{Op: "max", H: 1})
+			q(act{Op: "idel", H: 1, K: 70000})
+			q(act{Op: "idel", H: 1, K: 256})
+			r.step(act{Op: "len", H: 1})
+			q(act{Op: "drain", H: 1, N: n - 3, Max: i == 1})
+			r.step(act{Op: "len", H: 1})
+			r.step(act{Op: "roi", H: 1, K: 7}) // small again: observed in full
+			end(r)
+		}
+	}
+}
+
 // ------------------------------------------------------------------ clones in parallel
 
 // pevent: an event of the parallel phase; handle numbers of clones made inside the phase are
@@ -1353,7 +1640,7 @@ func waitFor(wg *sync.WaitGroup) bool {
 func runParallel(w *tr.W, rng *rand.Rand, nthreads, opsPer int) {
 	deg := []int{2, 2, 3, 4}[rng.Intn(4)]
 	nkeys := 12 + rng.Intn(30)
-	r := newRunner(w, rng, cfg{api: "inner", src: "parallel", deg: deg, fl: []int{-1, 0, 1, 1000}[rng.Intn(4)],
+	r := newRunner(w, rng, cfg{api: "inner", src: "parallel", deg: deg, kind: rng.Intn(3), fl: []int{-1, 0, 1, 1000}[rng.Intn(4)],
 		lo: 0, hi: nkeys - 1, dumpK: 1})
 	// base tree, sequentially (one time in six it stays empty: clones of a tree without a root,
 	// first written by several goroutines at once)
@@ -1443,7 +1730,7 @@ func runParallel(w *tr.W, rng *rand.Rand, nthreads, opsPer int) {
 						mine = append(mine, nh)
 						ev.h2, ev.r = nh, 0
 					} else {
-						one := &sut{api: "inner", deg: deg, hs: []*btree.BTree{ph.t}}
+						one := &sut{api: "inner", deg: deg, hs: []*btree.BTree{ph.t}, kind: r.s.kind}
 						b := a
 						b.H = 1
 						ev.r = one.do(b)
@@ -1532,7 +1819,7 @@ func runParallel(w *tr.W, rng *rand.Rand, nthreads, opsPer int) {
 // taken outside the wrapper's lock, so the log order is consistent with real time and the
 // effect of a call lies between its inv and its res.  TLC searches for a linearization.
 func runConc(w *tr.W, rng *rand.Rand, threads, opsPer, nkeys int) bool {
-	s := newSut("wrap", 2, -1)
+	s := newSut("wrap", 2, -1, rng.Intn(3))
 	var mu sync.Mutex
 	var evs []tr.E
 	logf := func(e tr.E) {
@@ -1606,6 +1893,7 @@ func runConc(w *tr.W, rng *rand.Rand, threads, opsPer, nkeys int) bool {
 	for _, e := range evs {
 		if rep, ok := e["r"]; ok {
 			e["r"] = resolve(rep) // scan results were kept as returned until every thread was done
+			scribble(rep)         // ... and are the caller's to overwrite before the final observation
 		}
 		w.Emit(e)
 	}
@@ -1622,6 +1910,140 @@ func runConc(w *tr.W, rng *rand.Rand, threads, opsPer, nkeys int) bool {
 	}
 	finalObs(w, s)
 	return true
+}
+
+// ------------------------------------------------------------------ gated reader against a writer
+
+// runGates: a call that has to WAIT is a first-class part of the history.  A wrapper scan is
+// stopped inside its filter callback after a few items (it holds the read lock there); only then a
+// second goroutine issues a writer that MOVES a node across the scan's cursor (Update /
+// UpdateOrInsert from ahead of the cursor to behind it, or the other way).  The harness waits until
+// the writer came back or 2 ms passed, then lets the scan go on.  On the unchanged code the writer
+// is parked until the scan returns; whatever happens is logged as inv/res with the global sequence
+// number and TLC looks for a linearization (a scan that saw the node twice, or not at all, has
+// none).  Nothing is judged here.
+func runGates(w *tr.W, rng *rand.Rand, rounds int) {
+	for r := 0; r < rounds; r++ {
+		s := newSut("wrap", 2, -1, rng.Intn(3))
+		nk := 6 + rng.Intn(8)
+		ver := 0
+		var prelog []tr.E
+		for i := 1; i <= nk; i++ { // even keys 2..2nk
+			ver++
+			a := act{Op: "ins", H: 1, K: 2 * i, V: ver}
+			rep, p := s.safeDo(a)
+			if p {
+				return
+			}
+			prelog = append(prelog, tr.E{"ev": "callr", "a": a.rec(), "r": rep})
+		}
+		asc := rng.Intn(2) == 0
+		stopAt := 2 + rng.Intn(nk-3) // the scan is held inside its stopAt-th filter call
+		// keys in scan order; visited = the first stopAt-1, ahead = the rest (the stopAt-th is under the cursor)
+		order := make([]int, 0, nk)
+		for i := 1; i <= nk; i++ {
+			if asc {
+				order = append(order, 2*i)
+			} else {
+				order = append(order, 2*(nk+1-i))
+			}
+		}
+		behind, ahead := order[:stopAt-1], order[stopAt:]
+		odd := func(k int) int { // a free (odd) key next to k
+			return k + 1 - 2*rng.Intn(2)
+		}
+		ver++
+		var wa act
+		from, to := ahead[rng.Intn(len(ahead))], odd(behind[rng.Intn(len(behind))])
+		if rng.Intn(2) == 0 {
+			from, to = behind[rng.Intn(len(behind))], odd(ahead[rng.Intn(len(ahead))])
+		}
+		wa = act{Op: []string{"upd", "upsert"}[rng.Intn(2)], H: 1, O: from, K: to, V: ver}
+		fn := "AscendGte"
+		piv := 0
+		if !asc {
+			fn, piv = "DescendLte", 2*nk+2
+		}
+		ra := act{Op: "scan", H: 1, Fn: fn, P: piv, Fm: 1, Fr: []int{0}, N: 1000}
+
+		type sev struct {
+			seq int64
+			e   tr.E
+		}
+		var seq int64
+		var rlog, wlog []sev
+		atGate, release, wdone := make(chan struct{}), make(chan struct{}), make(chan struct{})
+		var wg sync.WaitGroup
+		wg.Add(2)
+		go func() { // the reader
+			defer wg.Done()
+			calls := 0
+			s2 := *s
+			s2.hook = func(btree.Item) {
+				calls++
+				if calls == stopAt {
+					close(atGate)
+					<-release
+				}
+			}
+			rlog = append(rlog, sev{atomic.AddInt64(&seq, 1), tr.E{"ev": "inv", "t": 1, "a": ra.rec()}})
+			rep, p := s2.safeDo(ra)
+			if calls < stopAt { // the scan never reached the gate (nobody must wait for it)
+				close(atGate)
+			}
+			if p {
+				rlog = append(rlog, sev{atomic.AddInt64(&seq, 1), tr.E{"ev": "panic", "a": ra.rec(), "msg": tr.Str(rep.(string))}})
+				return
+			}
+			rlog = append(rlog, sev{atomic.AddInt64(&seq, 1), tr.E{"ev": "res", "t": 1, "r": rep}})
+		}()
+		go func() { // the writer, issued while the scan is held
+			defer wg.Done()
+			defer close(wdone)
+			<-atGate
+			wlog = append(wlog, sev{atomic.AddInt64(&seq, 1), tr.E{"ev": "inv", "t": 2, "a": wa.rec()}})
+			rep, p := s.safeDo(wa)
+			if p {
+				wlog = append(wlog, sev{atomic.AddInt64(&seq, 1), tr.E{"ev": "panic", "a": wa.rec(), "msg": tr.Str(rep.(string))}})
+				return
+			}
+			wlog = append(wlog, sev{atomic.AddInt64(&seq, 1), tr.E{"ev": "res", "t": 2, "r": rep}})
+		}()
+		<-atGate
+		select {
+		case <-wdone: // the writer did not wait for the scan
+		case <-time.After(2 * time.Millisecond):
+		}
+		close(release)
+		w.Emit(tr.E{"ev": "reset", "api": "wrap", "deg": 2, "threads": 2, "src": "gate", "lo": 1, "hi": 2*nk + 2, "kind": kindNames[s.kind]})
+		for _, e := range prelog {
+			w.Emit(e)
+		}
+		if !waitFor(&wg) {
+			st.Stuck++
+			w.Emit(tr.E{"ev": "stuck", "src": "gate"})
+			return
+		}
+		all := append(append([]sev{}, rlog...), wlog...)
+		sort.Slice(all, func(i, j int) bool { return all[i].seq < all[j].seq })
+		bad := false
+		for _, x := range all {
+			if rep, ok := x.e["r"]; ok {
+				x.e["r"] = resolve(rep)
+				scribble(rep)
+			}
+			if x.e["ev"] == "panic" {
+				bad = true
+			}
+			w.Emit(x.e)
+		}
+		st.Gates++
+		if bad {
+			st.Panics++
+			continue
+		}
+		finalObs(w, s)
+	}
 }
 
 // ------------------------------------------------------------------ race rounds on the wrapper
@@ -1648,7 +2070,7 @@ func runRaces(w *tr.W, rng *rand.Rand, rounds, keep int, budget time.Duration) (
 			break
 		}
 		ran++
-		s := newSut("wrap", 2, -1)
+		s := newSut("wrap", 2, -1, rng.Intn(3))
 		ver := 0
 		mk := func(kind string, t int) act {
 			ver++
@@ -1826,6 +2248,7 @@ func runRaces(w *tr.W, rng *rand.Rand, rounds, keep int, budget time.Duration) (
 		for _, x := range all {
 			if rep, ok := x.e["r"]; ok {
 				x.e["r"] = resolve(rep) // results kept as returned until the round was over
+				scribble(rep)
 			}
 			w.Emit(x.e)
 		}
@@ -1966,6 +2389,8 @@ func main() {
 	nrace := flag.Int("nrace", 20000, "race rounds on the wrapper (at most)")
 	nracekeep := flag.Int("nracekeep", 1200, "race rounds with real overlap to keep")
 	shapeEvery := flag.Int("shapeevery", 1, "run every k-th clone-in-shape-class scenario (1 = all 216)")
+	ngate := flag.Int("ngate", 150, "gated-reader rounds on the wrapper")
+	longRuns := flag.Bool("longruns", false, "also runs of 65535 / 65536 / 65537 items")
 	racesecs := flag.Int("racesecs", 12, "wall-clock budget of the race rounds (seconds)")
 	sweep := flag.Int("sweep", 4, "probability (percent) of a scan sweep after a write that changed the node structure (always one per handle at the end of a trace)")
 	statf := flag.String("stats", "", "write statistics (json) here")
@@ -2032,7 +2457,7 @@ func main() {
 					}
 				}
 			}
-			r := newRunner(w, rng, cfg{api: p[0].Api, src: "plan:" + filepath.Base(f), deg: p[0].Deg, fl: []int{-1, 0, 1000}[pi%3],
+			r := newRunner(w, rng, cfg{api: p[0].Api, src: "plan:" + filepath.Base(f), deg: p[0].Deg, kind: (pi / 2) % 3, fl: []int{-1, 0, 1000}[pi%3],
 				lo: lo, hi: hi, sweep: *sweep, dumpK: 1, retain: pi%2 == 1})
 			for _, a := range p[1:] {
 				r.step(a)
@@ -2044,6 +2469,7 @@ func main() {
 		randHistory(w, rng, i, *maxops, *sweep)
 	}
 	cloneShapes(w, rng, *shapeEvery)
+	edgeRuns(w, rng, *longRuns)
 	for i := 0; i < *npar; i++ {
 		runParallel(w, rng, 2+i%3, 20+rng.Intn(30))
 	}
@@ -2054,6 +2480,7 @@ func main() {
 	for i := 0; i < *nstress && okc; i++ {
 		okc = runConc(cw, rng, 4, 40, 10+rng.Intn(8))
 	}
+	runGates(cw, rng, *ngate)
 	ran, kept := runRaces(cw, rng, *nrace, *nracekeep, time.Duration(*racesecs)*time.Second)
 	st.RaceRounds, st.RaceKept = ran, kept
 	finish()
